@@ -87,9 +87,17 @@ func (a *Arguments) Get(argumentIndex int) reflect.Value {
 }
 
 // Panicf panics with formatted error message.
+// The interpreter adds the file and line of the call before the error leaves Execute.
 func (a *Arguments) Panicf(format string, v ...interface{}) {
-	panic(fmt.Errorf(format, v...))
+	panic(&callError{fmt.Errorf(format, v...)})
 }
+
+// callError is what Panicf raises: an error that does not know where in the
+// template the failing call stands. The call site turns it into a positioned error.
+type callError struct{ err error }
+
+func (e *callError) Error() string { return e.err.Error() }
+func (e *callError) Unwrap() error { return e.err }
 
 // RequireNumOfArguments panics if the number of arguments is not in the range specified by min and max.
 // In case there is no minimum pass -1, in case there is no maximum pass -1 respectively.
